@@ -29,7 +29,7 @@ ASSUMPTIONS = [
 
 
 def floors(tier):
-    return {"C13.mask": 1500, "C13.none": 1500, "on-face-points": 100, "cls:Points": 100, "cls:Curve": 100, "cls:Surface": 100, "cls:BlockModel": 60, "cls:Octree": 60, "cls:Grid2D": 100, "cls:Drillhole": 60, "inverse": 400, "extent-2d": 400, "extent-3d": 400, "copies": 200, "C13.copy-geom": 150, "C13.copy-data": 150, "C13.grid2d": 60, "outcome:none-bbox": 30, "outcome:none-empty": 30}
+    return {"C13.mask": 1500, "C13.none": 1500, "on-face-points": 100, "cls:Points": 100, "cls:Curve": 100, "cls:Surface": 100, "cls:BlockModel": 60, "cls:Octree": 60, "cls:Grid2D": 100, "cls:Drillhole": 60, "inverse": 400, "extent-2d": 400, "extent-3d": 400, "copies": 200, "C13.copy-geom": 150, "C13.copy-data": 150, "C13.grid2d": 60, "C13.source-unchanged": 300, "C13.copy-stored": 150, "outcome:none-bbox": 30, "outcome:none-empty": 30}
 
 
 def gen_cases(tier, seed):
@@ -157,6 +157,43 @@ def run_case(case, rec):
     gc.collect()
 
 
+def stored_values(ws, child):
+    """The child's values as they sit in the file (plain h5py on the workspace's own handle), no-data code mapped to NaN."""
+    h5 = ws.geoh5
+    node = h5[list(h5)[0]]["Data"]["{" + str(child.uid) + "}"]
+    if "Data" not in node:
+        return None
+    arr = np.asarray(node["Data"][()], dtype=float)
+    return np.where(np.isclose(arr, 1.175494351e-38, rtol=1e-6, atol=0), np.nan, arr)
+
+
+def same_values(a, b):
+    if a is None or b is None:
+        return a is None and b is None
+    a, b = list(np.asarray(a, dtype=float)), list(np.asarray(b, dtype=float))
+    return len(a) == len(b) and all((x == y) or (x != x and y != y) for x, y in zip(a, b))
+
+
+def after_copy(rec, ws, cls, obj, new, originals, attr):
+    """A selection never disturbs its source (live and stored), and what the copy shows is what was stored for it."""
+    for name, exp in originals.items():
+        src = [c for c in obj.children if getattr(c, "name", None) == name and isinstance(getattr(c, "values", None), np.ndarray)]
+        if not src:
+            rec.fail("C13.source-unchanged", op="copy_from_extent", cls=cls, attr=attr, detail=f"source data {name!r} disappeared after the selection")
+            continue
+        rec.check("C13.source-unchanged", same_values(src[0].values, exp), op="copy_from_extent", cls=cls, attr=attr + ":live", detail=f"source data {name!r} after the selection: {np.asarray(src[0].values).tolist()}, before: {np.asarray(exp).tolist()}")
+        rec.check("C13.source-unchanged", same_values(stored_values(ws, src[0]), exp), op="copy_from_extent", cls=cls, attr=attr + ":stored", detail=f"stored source data {name!r} after the selection: {stored_values(ws, src[0])}, before: {np.asarray(exp).tolist()}")
+    if new is None:
+        return
+    for child in new.children:
+        v = getattr(child, "values", None)
+        if isinstance(v, np.ndarray) and v.dtype.kind == "f":
+            st = stored_values(ws, child)
+            if st is not None and len(st) < len(v):
+                st = np.r_[st, np.full(len(v) - len(st), np.nan)]
+            rec.check("C13.copy-stored", same_values(st, v), op="copy_from_extent", cls=cls, attr=attr, detail=f"copied data {child.name!r} shows {v.tolist()} but the file holds {None if st is None else st.tolist()}")
+
+
 def do_points(case, rec, rng, ws, dims, inverse, copy):
     from geoh5py.objects import Points
 
@@ -171,8 +208,11 @@ def do_points(case, rec, rng, ws, dims, inverse, copy):
     judge_mask(rec, "Points", got, exp, pts, box, dims, inverse, style)
     if copy:
         rec.see("copies")
-        new = obj.copy_from_extent(np.array(box), inverse=inverse)
-        judge_vertex_copy(rec, "Points", new, pts, None, exp, None, vals, None, box, style, dims, inverse)
+        for inv in [inverse, not inverse][: 2 if rng.random() < 0.5 else 1]:  # sometimes both selections from the same live source
+            e2 = expect_vertex_mask(pts, box, dims, inv)
+            new = obj.copy_from_extent(np.array(box), inverse=inv)
+            judge_vertex_copy(rec, "Points", new, pts, None, e2, None, vals, None, box, style, dims, inv)
+            after_copy(rec, ws, "Points", obj, new, {"d": vals}, f"{dims}d")
     return ["Points", style, dims, inverse, "none" if got is None else "mask"]
 
 
@@ -196,8 +236,11 @@ def do_cells(case, rec, rng, ws, dims, inverse, copy):
     judge_mask(rec, cls, got, exp, pts, box, dims, inverse, style)
     if copy:
         rec.see("copies")
-        new = obj.copy_from_extent(np.array(box), inverse=inverse)
-        judge_vertex_copy(rec, cls, new, pts, cells, exp, keep_cells, vvals, cvals, box, style, dims, inverse)
+        for inv in [inverse, not inverse][: 2 if rng.random() < 0.5 else 1]:
+            e2, k2 = expect_cell_object(pts, cells, box, dims, inv)
+            new = obj.copy_from_extent(np.array(box), inverse=inv)
+            judge_vertex_copy(rec, cls, new, pts, cells, e2, k2, vvals, cvals, box, style, dims, inv)
+            after_copy(rec, ws, cls, obj, new, {"vd": vvals, "cd": cvals}, f"{dims}d")
     return [cls, style, dims, inverse, "none" if got is None else "mask"]
 
 
@@ -284,7 +327,10 @@ def do_block(case, rec, rng, ws, dims, inverse, copy):
     judge_mask(rec, "BlockModel", got, exp, cent, box, dims, inverse, style)
     if copy:
         rec.see("copies")
-        judge_grid_copy(rec, "BlockModel", obj, obj.copy_from_extent(np.array(box), inverse=inverse), cent, exp, vals, box, style, dims, inverse)
+        for inv in [inverse, not inverse][: 2 if rng.random() < 0.5 else 1]:
+            new = obj.copy_from_extent(np.array(box), inverse=inv)
+            judge_grid_copy(rec, "BlockModel", obj, new, cent, expect_vertex_mask(cent, box, dims, inv), vals, box, style, dims, inv)
+            after_copy(rec, ws, "BlockModel", obj, new, {"d": vals}, f"{dims}d")
     return ["BlockModel", (nu, nv, nz), style, dims, inverse]
 
 
@@ -304,7 +350,10 @@ def do_octree(case, rec, rng, ws, dims, inverse, copy):
     judge_mask(rec, "Octree", got, exp, cent, box, dims, inverse, style)
     if copy:
         rec.see("copies")
-        judge_grid_copy(rec, "Octree", obj, obj.copy_from_extent(np.array(box), inverse=inverse), cent, exp, vals, box, style, dims, inverse)
+        for inv in [inverse, not inverse][: 2 if rng.random() < 0.5 else 1]:
+            new = obj.copy_from_extent(np.array(box), inverse=inv)
+            judge_grid_copy(rec, "Octree", obj, new, cent, expect_vertex_mask(cent, box, dims, inv), vals, box, style, dims, inv)
+            after_copy(rec, ws, "Octree", obj, new, {"d": vals}, f"{dims}d")
     return ["Octree", (nu, nv, nw), style, dims, inverse]
 
 
@@ -317,6 +366,39 @@ def grid2d_centroids(nu, nv, su, sv, origin, rot, dip):
             x, y, z = u, v * math.cos(d), v * math.sin(d)
             out[i + j * nu] = (origin[0] + math.cos(r) * x - math.sin(r) * y, origin[1] + math.sin(r) * x + math.cos(r) * y, origin[2] + z)
     return out
+
+
+def grid2d_copy(rec, ws, obj, box, dims, inverse, rotated, exp, cent, vals, nu, nv, rot, dip):
+    new = obj.copy_from_extent(np.array(box), inverse=inverse)
+    attr = f"{dims}d{':inverse' if inverse else ''}{':rotated' if rotated else ''}"
+    rec.evals["C13.grid2d"] += 1
+    if new is None:
+        rec.check("C13.none", not any(exp), op="copy_from_extent", cls="Grid2D", attr=attr, detail=f"None although {sum(exp)} cells qualify; box={box}")
+    elif not inverse:
+        sel = [(i % nu, i // nu) for i, m in enumerate(exp) if m]
+        if not sel:
+            rec.fail("C13.grid2d", op="copy_from_extent", cls="Grid2D", attr=attr, detail="a sub-grid was returned although no cell qualifies", counted=True)
+        else:
+            i0, i1 = min(s[0] for s in sel), max(s[0] for s in sel)
+            j0, j1 = min(s[1] for s in sel), max(s[1] for s in sel)
+            want_c = [cent[i + j * nu] for j in range(j0, j1 + 1) for i in range(i0, i1 + 1)]
+            want_v = [vals[i + j * nu] if exp[i + j * nu] else float("nan") for j in range(j0, j1 + 1) for i in range(i0, i1 + 1)]
+            okc = new.u_count == i1 - i0 + 1 and new.v_count == j1 - j0 + 1 and new.centroids is not None and len(new.centroids) == len(want_c) and all(math.dist(a, b) < 1e-9 for a, b in zip(new.centroids.tolist(), want_c))
+            rec.check("C13.grid2d", okc, op="copy_from_extent", cls="Grid2D", attr=attr + ":geometry", detail=f"sub-grid {new.u_count}x{new.v_count} origin {new.origin} is not the smallest sub-grid [{i0}..{i1}]x[{j0}..{j1}] of the {nu}x{nv} grid (rot {rot}, dip {dip}, box {box})")
+            for child in new.children:
+                v = getattr(child, "values", None)
+                if isinstance(v, np.ndarray) and child.name == "d":
+                    same = len(v) == len(want_v) and all((a == b) or (a != a and b != b) for a, b in zip(v.tolist(), want_v))
+                    rec.check("C13.grid2d", same, op="copy_from_extent", cls="Grid2D", attr=attr + ":values", detail=f"values {v.tolist()} expected {want_v}")
+    else:
+        for child in new.children:
+            v = getattr(child, "values", None)
+            if isinstance(v, np.ndarray) and child.name == "d":
+                e = [vals[i] if m else float("nan") for i, m in enumerate(exp)]
+                same = len(v) == len(e) and all((a == b) or (a != a and b != b) for a, b in zip(v.tolist(), e))
+                rec.check("C13.grid2d", same, op="copy_from_extent", cls="Grid2D", attr=attr + ":values", detail=f"inverse copy values {v.tolist()} expected {e}")
+
+    after_copy(rec, ws, "Grid2D", obj, new, {"d": vals}, f"{dims}d{':rotated' if rotated else ''}")
 
 
 def do_grid2d(case, rec, rng, ws, dims, inverse, copy):
@@ -359,34 +441,9 @@ def do_grid2d(case, rec, rng, ws, dims, inverse, copy):
     judge_mask(rec, "Grid2D", got, exp, cent, box, dims, inverse, style + (":rotated" if rotated else ""))
     if copy:
         rec.see("copies")
-        new = obj.copy_from_extent(np.array(box), inverse=inverse)
-        attr = f"{dims}d{':inverse' if inverse else ''}{':rotated' if rotated else ''}"
-        rec.evals["C13.grid2d"] += 1
-        if new is None:
-            rec.check("C13.none", not any(exp), op="copy_from_extent", cls="Grid2D", attr=attr, detail=f"None although {sum(exp)} cells qualify; box={box}")
-        elif not inverse:
-            sel = [(i % nu, i // nu) for i, m in enumerate(exp) if m]
-            if not sel:
-                rec.fail("C13.grid2d", op="copy_from_extent", cls="Grid2D", attr=attr, detail="a sub-grid was returned although no cell qualifies", counted=True)
-            else:
-                i0, i1 = min(s[0] for s in sel), max(s[0] for s in sel)
-                j0, j1 = min(s[1] for s in sel), max(s[1] for s in sel)
-                want_c = [cent[i + j * nu] for j in range(j0, j1 + 1) for i in range(i0, i1 + 1)]
-                want_v = [vals[i + j * nu] if exp[i + j * nu] else float("nan") for j in range(j0, j1 + 1) for i in range(i0, i1 + 1)]
-                okc = new.u_count == i1 - i0 + 1 and new.v_count == j1 - j0 + 1 and new.centroids is not None and len(new.centroids) == len(want_c) and all(math.dist(a, b) < 1e-9 for a, b in zip(new.centroids.tolist(), want_c))
-                rec.check("C13.grid2d", okc, op="copy_from_extent", cls="Grid2D", attr=attr + ":geometry", detail=f"sub-grid {new.u_count}x{new.v_count} origin {new.origin} is not the smallest sub-grid [{i0}..{i1}]x[{j0}..{j1}] of the {nu}x{nv} grid (rot {rot}, dip {dip}, box {box})")
-                for child in new.children:
-                    v = getattr(child, "values", None)
-                    if isinstance(v, np.ndarray) and child.name == "d":
-                        same = len(v) == len(want_v) and all((a == b) or (a != a and b != b) for a, b in zip(v.tolist(), want_v))
-                        rec.check("C13.grid2d", same, op="copy_from_extent", cls="Grid2D", attr=attr + ":values", detail=f"values {v.tolist()} expected {want_v}")
-        else:
-            for child in new.children:
-                v = getattr(child, "values", None)
-                if isinstance(v, np.ndarray) and child.name == "d":
-                    e = [vals[i] if m else float("nan") for i, m in enumerate(exp)]
-                    same = len(v) == len(e) and all((a == b) or (a != a and b != b) for a, b in zip(v.tolist(), e))
-                    rec.check("C13.grid2d", same, op="copy_from_extent", cls="Grid2D", attr=attr + ":values", detail=f"inverse copy values {v.tolist()} expected {e}")
+        for inv in [inverse, not inverse][: 2 if rng.random() < 0.5 else 1]:  # sometimes both selections from the same live grid
+            exp_i = expect_vertex_mask(cent, box, dims, inv)
+            grid2d_copy(rec, ws, obj, box, dims, inv, rotated, exp_i, cent, vals, nu, nv, rot, dip)
     return ["Grid2D", rotated, (nu, nv), style, dims, inverse]
 
 
